@@ -177,6 +177,20 @@ func observeKey(k *hdkeychain.ExtendedKey, anet int) (map[string]interface{}, []
 			o["addr"] = str(a.EncodeAddress())
 		}
 	})
+	// ... and the address on EVERY registered network, asked of the same object one after the other (several networks
+	// share the extended-key version bytes but not the address prefix)
+	addrs := [][]int{}
+	guard(func() {
+		for _, n := range nets {
+			a, err := k.Address(n)
+			if err != nil {
+				addrs = append(addrs, []int{})
+				continue
+			}
+			addrs = append(addrs, str(a.EncodeAddress()))
+		}
+	})
+	o["addrs"] = addrs
 	return o, envForKey(p)
 }
 
